@@ -84,13 +84,13 @@ func TestPropTerminal(t *testing.T) {
 			if h := hardOf(misses); h != nil {
 				v.Sig = h.Sig
 			} else {
-				// timing-dependent complaint: it counts only if the scenario, run alone, misses again (twice)
-				reproduced := true
-				for k := 0; k < 2 && reproduced; k++ {
+				// timing-dependent complaint: it counts only if the scenario, run alone, misses again twice
+				// (runs during which the test process itself was stalled carry no information and are repeated)
+				need, reproduced := 2, true
+				for tries := 0; need > 0 && tries < 6; tries++ {
 					r2 := runScenario(sc)
 					if r2.Infra != "" {
-						reproduced = false
-						break
+						continue
 					}
 					m2, _ := judge(sc, r2)
 					v.Runs = append(v.Runs, runRec{r2, m2})
@@ -98,9 +98,17 @@ func TestPropTerminal(t *testing.T) {
 						v.Sig = h.Sig
 						break
 					}
+					if r2.MaxStallUs > disturbedUs {
+						continue
+					}
 					if len(m2) == 0 {
 						reproduced = false
+						break
 					}
+					need--
+				}
+				if need > 0 {
+					reproduced = false
 				}
 				if v.Sig == "" {
 					if !reproduced {
@@ -160,7 +168,7 @@ func TestReplay(t *testing.T) {
 					rb, _ := json.Marshal(res)
 					ev.Fail(t, part, misses[0].Sig+":reproduced-serially", "run %d: %s :: %s", i, misses[0].Msg, rb)
 				}
-			} else {
+			} else if res.MaxStallUs <= disturbedUs {
 				soft = 0
 			}
 		}
